@@ -322,7 +322,7 @@ class BaseDiscretizer(BaseEstimator, TransformerMixin):
                 assert not any(y.isna()), " - [Discretizer] y should not contain numpy.nan"
 
                 # checking indices
-                assert all(
+                assert len(y.index) == len(X.index) and all(
                     y.index == X.index
                 ), " - [Discretizer] X and y must have the same indices."
 
